@@ -91,8 +91,12 @@ class JSONField(ABC):
         d = json.loads(json_string)
         ret = cls()
         # we make constructing from JSON more forgiving to allow some limited
-        # forward compatibility, in case the fields change
-        ret._set_fields(forgiving=True, **d)
+        # forward compatibility, in case the fields change: fields this version
+        # does not know are skipped whatever their value is
+        unknown = [k for k in d if k not in ret.__dict__]
+        if len(unknown) > 0:
+            fl.get_logger().warning(f"Ignoring unknown fields {unknown} of {cls.__name__}")
+        ret._set_fields(forgiving=True, **{k: v for k, v in d.items() if k in ret.__dict__})
         return ret
 
     def to_dict(self) -> Dict[str, str] or None:
